@@ -37,6 +37,9 @@ func runC06(c *Ctx) {
 	// that does not copy its input would otherwise expose - and let a consumer modify - stored bytes)
 	checkCopyDiscipline(r, p)
 	checkKVStoreTrustedHelpers(r, p)
+	// the error-faithfulness clauses follow errors through helpers: what the engine assumes about the
+	// error constructors is checked on their bodies
+	checkErrorConstructorsNonNil(r, p)
 	// 1. error discipline
 	checkErrChecked(r, p, "err/checked", errScope{Pkg: pkg, Funcs: append(append([]*ast.FuncDecl{}, tv...), ts...)})
 	for _, fd := range append(append([]*ast.FuncDecl{}, tv...), ts...) {
